@@ -1,0 +1,11 @@
+//go:build verif
+
+// Contracts for the deductive verifier in /verif (govc). Comment-only file: with the
+// "verif" build tag off it is invisible to the compiler.
+package internal
+
+//@ import telemetry "github.com/tetratelabs/telemetry"
+
+// Logger returns the registered scope of that name or the no-op logger: never nil.
+//@ func Logger
+//@   ensures  nonnil: result != nil
